@@ -1,5 +1,6 @@
 import GV.Drv.Util
 import GV.Generated.Compile
+import GV.Eval.Lex
 namespace GV.Drv
 open Lean GV.Compile
 
@@ -39,6 +40,7 @@ def compileCase (j : Json) : Json :=
                 ("modelRes", Json.str (reprStr m)),
                 ("modelAfter", Json.arr ((sortCR (after macc)).map crJson).toArray),
                 ("specAfter", Json.arr ((sortCR (after sacc)).map crJson).toArray)])
-  Json.mkObj [("i", jObj j "i"), ("valid", Json.bool o.Valid), ("eps", Json.arr eps.toArray)]
+  Json.mkObj [("i", jObj j "i"), ("valid", Json.bool o.Valid), ("eps", Json.arr eps.toArray),
+              ("lexOk", Json.bool (GV.Eval.Lex.lexOk (jStr j "text").toList))]
 
 end GV.Drv
